@@ -9,6 +9,8 @@ TRUSTED = [
     "translator/ex_c12.py; sharing is recognised syntactically: Arc/Rc/Mutex/RefCell/reference in the declared type after "
     "expanding the file's own type aliases, or Arc::clone in the expression), the subshell call sites of interp.rs/commands.rs "
     "(all `shell.clone()`), umask/ulimit as process-global state; field contents are abstract tokens",
+    "in-process second view (harness `subsh`): serde serialisation of the parent `Shell` before/after; 22 of the 27 fields are "
+    "serialisable (error_formatter, jobs, builtins, parser_impl, key_bindings are `serde(skip)`)",
     "python oracle in props/c12.py: the parent's textual dump (declare -p, declare -f, set -o, shopt, alias, trap -p, pwd, "
     "/proc/$$/cwd, dirs, $@, /proc/self/fd, umask, ulimit -a) is identical before and after the subshell",
 ]
@@ -43,6 +45,49 @@ echo "##nofile"; ulimit -n
 echo "##ulimit"; ulimit -a
 }
 """
+
+SETUP = """cd /var/tmp
+v0=old; v1=old; export v2=old
+f0() { echo f0; }
+alias a0=b0
+trap 'echo u2' USR2
+set -- p1 p2
+"""
+
+# what the serde view of `Shell` must show for a mutator run in the current shell
+SERDE_FIELD = {"env": "env:", "funcs": "funcs", "options": "options", "aliases": "aliases", "traps": "traps",
+               "working_dir": "working_dir", "directory_stack": "directory_stack", "args": "args", "open_files": "open_files"}
+
+
+def serde_view(ctx, cases):
+    """in-process tie: serialise the parent `Shell` (serde) before and after; no field may differ after a subshell"""
+    sel = [(c, b) for c, b in cases if not has(b, "U") and not has(b, "L")]
+    inp = [[SETUP, wrap("cur", body_text(b)) if c == "cur" else mut_text(("S", c, b))] for c, b in sel]
+    res = ctx.impl("subsh", inp, shards=8)
+    viol, fields_seen, n = [], set(), 0
+    for (c, b), line, i in zip(sel, res, inp):
+        if line.startswith(("PANIC", "DIED", "TIMEOUT")):
+            viol.append({"input": {"script": i[1]}, "why": "in-process run failed: %s" % line[:100]})
+            continue
+        f = core.dec_line(line)
+        if len(f) < 2:
+            f = f + [""]
+        fields_seen |= set(x for x in f[0].split(",") if x)
+        diff = [x for x in f[1].split(",") if x]
+        n += 1
+        if c == "cur":
+            for m in b:
+                want = [SERDE_FIELD[m[1]]] if m[0] == "F" else [SERDE_FIELD[x] for x in m[2]] if m[0] == "P" else []
+                for w in want:
+                    if not any(d.startswith(w) for d in diff):
+                        viol.append({"input": {"script": i[1]}, "why": "the serde view of Shell does not show a change of %s for a mutator run in the current shell (the oracle would be blind)" % w})
+            continue
+        if c == "coproc":
+            diff = [d for d in diff if d != "open_files" and "COPROC" not in d]
+        if diff:
+            viol.append({"input": {"script": i[1]}, "why": "field(s) %s of the parent's Shell (serde) differ after a %s subshell" % (diff, c)})
+    return {"n": n, "violations": viol, "fields": sorted(fields_seen)}
+
 
 # (text, [model tokens]) per mutator; `once` = the fields it is known to change from the initial state
 MUTS = {
@@ -317,6 +362,8 @@ def run(ctx):
     # concurrent parent activity (sampled)
     conc = concurrent_cases(ctx)
     specv += conc["violations"]
+    ser = serde_view(ctx, cases)
+    specv += ser["violations"]
     seen, outv = {}, []
     for v in specv:
         key = (v.get("known"), re.sub(r"[0-9]+", "#", v["why"])[:50])
@@ -328,7 +375,7 @@ def run(ctx):
         dist[c] = dist.get(c, 0) + 1
     nontriv = {repr(x) for x in cases if x[0] != "cur"}
     return {
-        "evaluations": len(cases) + conc["n"],
+        "evaluations": len(cases) + conc["n"] + ser["n"],
         "distinct_nontrivial": len(nontriv),
         "rule": "process level (harness-built brush binary, `-c`): for each of 8 subshell contexts (( ), $( ), backquotes, first and "
                 "last pipeline stage, `&`+wait, <( ), coproc) every single mutator of the grammar, plus random mutator sequences "
@@ -340,7 +387,7 @@ def run(ctx):
         "extraction_crosscheck": {"cases": len(samp), "agree": len(samp) - len(xbad)},
         "model_mismatches": mism,
         "spec_violations": outv,
-        "notes": "concurrent samples: %d" % conc["n"],
+        "notes": "concurrent samples: %d; in-process serde comparisons: %d over the fields %s" % (conc["n"], ser["n"], ser["fields"]),
     }
 
 
